@@ -4,6 +4,7 @@
 For every accepted byte string b:  o1 = parse(b);  b2 = o1.compose() succeeds;  o2 = parse(b2) succeeds and equals o1;
 o2.compose() == b2.  Inputs are chosen to be accepted but *not* canonical.
 """
+import os
 import random
 import re
 import time
@@ -173,7 +174,11 @@ def run(ctx):
     per_class = 400 if ctx.quick else 10000
     budget_s = 100 if ctx.quick else 1500
     jobs = [(index, ctx.derive_seed('shard', index), per_class, budget_s) for index in range(N_SHARDS)]
-    return pool.run_shards(_shard, jobs)
+    stats = pool.run_shards(_shard, jobs)
+    if not ctx.quick:
+        from vf.fuzz import campaign  # pylint: disable=import-outside-toplevel
+        campaign.run(ID, ctx.derive_seed, stats, runs=int(os.environ.get('VERIF_ATHERIS_RUNS', '150000')))
+    return stats
 
 
 def shrink(ctx, key, entry):
